@@ -76,8 +76,8 @@ def explore(res, rng, n):
     # ---- curvature extraction on rotated paraboloids in standard normal space
     for i in range(n):
         d = rng.choice([2, 3, 4])
-        beta = rng.choice([1.0, 2.0, 3.0])
-        ks = [rng.choice([0.0, 0.1, 0.3, -0.15 / beta, 0.5]) for _ in range(d - 1)]
+        beta = rng.choice([1.0, 2.0, 3.0, 0.0]) if i else 0.0        # beta = 0: the limit surface passes through the origin of U space
+        ks = [rng.choice([0.0, 0.1, 0.3, -0.15 / max(beta, 1.0), 0.5]) for _ in range(d - 1)]
         Q = rotation(rng, d)
         if rng.random() < 0.35:
             # axes merely re-ordered / mirrored: the design point lies exactly on a coordinate axis
@@ -89,10 +89,30 @@ def explore(res, rng, n):
         def g(u, Q=Q, ks=ks, beta=beta):
             v = Q.T @ np.asarray(u, dtype=float)
             return float(beta - v[-1] + 0.5 * sum(k * vi * vi for k, vi in zip(ks, v[:-1])))
+
+        def gradu(u, Q=Q, ks=ks):
+            v = Q.T @ np.asarray(u, dtype=float)
+            return Q @ np.array([k * vi for k, vi in zip(ks, v[:-1])] + [-1.0])
+        dg_an = None
+        # a third of the cases: one more variable that the limit state ignores (first, middle or last position), analytic gradient
+        dummy = rng.random() < 0.35
+        if dummy:
+            pos_ = rng.choice([0, 0, d // 2, d])
+            g0, gr0, d0 = g, gradu, d
+            keep_ = [j for j in range(d0 + 1) if j != pos_]
+            g = (lambda u, g0=g0, keep_=keep_: g0(np.asarray(u, dtype=float)[keep_]))
+            def gradu(u, gr0=gr0, keep_=keep_, d0=d0):
+                out_ = np.zeros(d0 + 1)
+                out_[keep_] = gr0(np.asarray(u, dtype=float)[keep_])
+                return out_
+            d = d0 + 1
+            if rng.random() < 0.6:
+                dg_an = [(lambda X, j=j, gradu=gradu: float(gradu(X)[j])) for j in range(d)]
+            res.stat('paraboloid_with_ignored_variable_at_%s' % ('first' if pos_ == 0 else 'last' if pos_ == d0 else 'middle'))
         # half of the cases: the same surface seen through correlated normal marginals x = mu + D L u
         corr = np.eye(d)
         dists = [stats.norm() for _ in range(d)]
-        if rng.random() < 0.5:
+        if rng.random() < 0.5 and dg_an is None:
             from props.c11 import random_corr
             corr = random_corr(rng, d)
             mus = np.array([float(rng.randint(-2, 2)) for _ in range(d)])
@@ -102,15 +122,15 @@ def explore(res, rng, n):
             g = (lambda X, gu=gu, Lc=Lc, mus=mus, sg=sg: gu(np.linalg.solve(Lc, (np.asarray(X, dtype=float) - mus) / sg)))
             dists = [stats.norm(m, s_) for m, s_ in zip(mus, sg)]
             res.stat('paraboloid_correlated_marginals')
-        case = {'beta': beta, 'ks': ks, 'Q': np.round(Q, 6).tolist(), 'corr': np.round(corr, 4).tolist()}
+        case = {'beta': beta, 'ks': ks, 'Q': np.round(Q, 6).tolist(), 'corr': np.round(corr, 4).tolist(), 'ignored_variable': (pos_ if dummy else None), 'analytic_dg': dg_an is not None}
         res.evaluations += 1
         res.nontrivial.add(json.dumps(case))
         res.stat('paraboloid_dim_%d' % d)
         if i < 2:
             res.samples.append(case)
         try:
-            b, pf, u, x = rrm.breitungSORM(d, g, None, dists, corr.tolist())
-            bh, pfh, _, _ = rrm.hrackSORM(d, g, None, dists, corr.tolist())
+            b, pf, u, x = rrm.breitungSORM(d, g, dg_an, dists, corr.tolist())
+            bh, pfh, _, _ = rrm.hrackSORM(d, g, dg_an, dists, corr.tolist())
             bf, pff, uf, xf = rrm.coptFORM(d, g, dists, corr.tolist())
         except Exception as e:  # noqa
             fail(res, 'SORM raised on a paraboloid', case, repr(e)[:200])
